@@ -258,7 +258,7 @@ func ruleR22(p *Prog) []Ob {
 		for i, rm := range removes {
 			n++
 			removed := descr(segAddrOf(rm.Call.Args[0]))
-			ob := Ob{Rule: "R22", Inst: fmt.Sprintf("use-after-remove:%s:remove#%d", funcLabel(fn), i+1), Props: []string{"C12", "C01"}, Pos: p.at(rm), Func: funcLabel(fn), Nontrivial: true}
+			ob := Ob{Rule: "R22", Inst: fmt.Sprintf("use-after-remove:%s:remove#%d", funcLabel(fn), i+1), Props: []string{"C12", "C01", "C03", "C04", "C10"}, Pos: p.at(rm), Func: funcLabel(fn), Nontrivial: true}
 			var bad []string
 			for _, b := range fn.Blocks {
 				for _, ins := range b.Instrs {
